@@ -110,6 +110,15 @@ def run(ctx):
     uses_dtype = any(x.kind == 'attr' and x.args[1] == 'dtype' or (x.kind == 'call' and str(x.args[0]) in ('result_type', 'promote_types', 'getattr', 'issubdtype'))
                      or (x.kind == 'ite')
                      for a in fin for x in T.all_atoms(Term.of(a)).values())
+    # (np.result_type / np.promote_types applied to the statistic's VALUE instead of its dtype treats a Python scalar as "weak":
+    #  result_type(1e7, float32) is float32 -- explicitly supplied Python statistics would get the float32 epsilon)
+    def _value_promoted(a_):
+        return a_.kind == 'call' and str(a_.args[0]) in ('result_type', 'promote_types') and any(
+            isinstance(x_, Term) and x_.single_atom() is not None and x_.single_atom().kind == 'sym'
+            and x_.single_atom().args[0] in ('data_mean', 'data_std') for x_ in a_.args[1])
+    weak = [x for a in fin for x in T.all_atoms(Term.of(a)).values() if _value_promoted(x)]
+    if weak:
+        uses_dtype = False
     es = ctx.func(DSM + 'estimate_stats')
     double_stats = all(any(k.arg == 'dtype' and ast.unparse(k.value) in ('float', 'np.float64', 'xp.float64', 'numpy.float64')
                            for k in n.keywords)
